@@ -95,6 +95,7 @@ Qed.
 Section Proofs.
 Variable F : Type.
 Variable flt : F -> F -> bool.
+Variable ops : stat_ops.
 (* the order laws of fitness_t::operator< (a strict weak order; C18 proves
    them for the real fitness type on NaN-free vectors) *)
 Hypothesis flt_asym : forall a b, flt a b = true -> flt b a = false.
@@ -193,12 +194,13 @@ Qed.
 Lemma shape_remove_nth : forall (p : population) l, shape (remove_nth l p) = remove_nth l (shape p).
 Proof. intros p. induction p as [|h t IH]; intros [|k]; simpl; auto. rewrite IH. reflexivity. Qed.
 
-Lemma PL_remove_layers : forall rs (p : population) b p', PL p -> remove_layers p b rs = Some p' -> PL p'.
+Lemma PL_removal_loop : forall means l (p : population) p', PL p -> removal_loop ops means p l = Some p' -> PL p'.
 Proof.
-  induction rs as [|l r IH]; intros p b p' H E; simpl in E.
+  intros means. induction l as [|k IH]; intros p p' H E; cbn [removal_loop] in E.
   - inversion E; subst; auto.
-  - destruct ((0 <? l)%nat && (l <? b)%nat && (l <? length p)%nat) eqn:C; [|discriminate].
-    eapply IH; [|exact E]. unfold PL. rewrite shape_remove_nth. apply good_shape_remove; auto. lia.
+  - destruct (nth_error means k) as [a|]; [|discriminate]. destruct (nth_error means (S k)) as [b|]; [|discriminate].
+    eapply IH; [|exact E]. destruct (st_almost_equal ops a b); auto.
+    unfold PL. rewrite shape_remove_nth. apply good_shape_remove; auto. lia.
 Qed.
 
 Lemma PL_resize_layers : forall e bs (p : population) l, (1 <= e_min_individuals e)%nat -> (1 <= e_individuals e)%nat ->
@@ -242,34 +244,32 @@ Definition env_ok (e : env) : Prop :=
   (1 <= e_individuals e)%nat /\ (1 <= e_min_individuals e)%nat.
 
 Lemma after_generation_alps_PL : forall e s a p', env_ok e -> PL (pop s) ->
-  after_generation_alps flt e s a = Some p' -> PL p'.
+  after_generation_alps flt ops e s a = Some p' -> PL p'.
 Proof.
   intros e s a p' [Hi Hm] H E. unfold after_generation_alps in E.
   assert (H0 : PL (inc_age (pop s))) by (unfold PL; rewrite shape_inc_age; auto).
-  destruct (remove_layers (inc_age (pop s)) (length (inc_age (pop s))) (ag_removed a)) as [p1|] eqn:Er; [|discriminate].
-  apply PL_remove_layers in Er; auto.
-  destruct (negb (S (length (ag_small a)) =? length p1)%nat); [discriminate|].
-  pose proof (PL_resize_layers e (ag_small a) p1 1%nat Hm Hi Er) as H2.
-  set (p2 := resize_layers e p1 1 (ag_small a)) in *.
-  match type of E with (if ?c then _ else _) = _ => destruct c end.
-  - destruct (ag_kind_of a) as [|news|ds news]; [discriminate| |].
-    + destruct ((length news =? e_individuals e)%nat && fresh news) eqn:C; [|discriminate].
-      inversion E; subst. destruct H2 as [Hne Hall]. split; [simpl; congruence|].
-      simpl. constructor; auto. simpl. lia.
-    + destruct (length p2 <? e_layers e)%nat; [discriminate|].
-      destruct p2 as [|l0 rest0] eqn:Ep2; [discriminate|].
-      match type of E with match ?m with _ => _ end = _ => destruct m as [[p3 ds3]|] eqn:Em end; [|discriminate].
-      assert (H3 : PL p3).
-      { destruct (1 <? length (l0 :: rest0))%nat.
-        - apply move_up_PL in Em; tauto.
-        - inversion Em; subst; auto. }
-      destruct p3 as [|l0' rest]; [discriminate|].
-      destruct ((length news =? allowed l0')%nat && fresh news) eqn:C; [|discriminate].
-      inversion E; subst. pose proof (PL_nth _ O l0' H3 eq_refl) as Hl0.
-      destruct H3 as [Hne Hall]. split; [simpl; congruence|]. simpl in *. inversion Hall; subst.
-      constructor; auto. simpl. lia.
-  - destruct (ag_kind_of a); try discriminate. destruct (0 <? e_age_gap e); [|discriminate].
-    inversion E; subst; auto.
+  destruct (removal_loop ops (fit_mean (ag_stats a)) (inc_age (pop s)) (length (inc_age (pop s)) - 1)) as [p1|] eqn:Er; [|discriminate].
+  apply PL_removal_loop in Er; auto.
+  destruct (small_flags ops (fit_sd (ag_stats a)) 1 (length p1 - 1)) as [bs|]; [|discriminate].
+  pose proof (PL_resize_layers e bs p1 1%nat Hm Hi Er) as H2.
+  set (p2 := resize_layers e p1 1 bs) in *.
+  destruct (negb (0 <? e_age_gap e)); [discriminate|].
+  match type of E with (if ?c then _ else _) = _ => destruct c end; [|inversion E; subst; auto].
+  destruct (add_layer_decision ops e (ag_stats a) (length p2)) as [[|]|]; [| |discriminate].
+  - destruct ((length (ag_news a) =? e_individuals e)%nat && fresh (ag_news a)) eqn:C; [|discriminate].
+    inversion E; subst. destruct H2 as [Hne Hall]. split; [simpl; congruence|].
+    simpl. constructor; auto. simpl. lia.
+  - destruct p2 as [|l0 rest0] eqn:Ep2; [discriminate|].
+    match type of E with match ?m with _ => _ end = _ => destruct m as [[p3 ds3]|] eqn:Em end; [|discriminate].
+    assert (H3 : PL p3).
+    { destruct (1 <? length (l0 :: rest0))%nat.
+      - apply move_up_PL in Em; tauto.
+      - inversion Em; subst; auto. }
+    destruct p3 as [|l0' rest]; [discriminate|].
+    destruct ((length (ag_news a) =? allowed l0')%nat && fresh (ag_news a)) eqn:C; [|discriminate].
+    inversion E; subst. pose proof (PL_nth _ O l0' H3 eq_refl) as Hl0.
+    destruct H3 as [Hne Hall]. split; [simpl; congruence|]. simpl in *. inversion Hall; subst.
+    constructor; auto. simpl. lia.
 Qed.
 
 (* ------------------------------------------------------ the invariant *)
@@ -330,18 +330,17 @@ Proof.
     + split; [auto|]. split; [auto|]. split; auto.
 Qed.
 
-Lemma step_inv : forall e s ev s', env_ok e -> Inv e s -> step_ok flt e s ev = Some s' -> Inv e s'.
+Lemma step_inv : forall e s ev s', env_ok e -> Inv e s -> step_ok flt ops e s ev = Some s' -> Inv e s'.
 Proof.
   intros e s ev s' Hok HI E. destruct ev as [sd rd o ds|a|bf fits]; simpl in E.
   - destruct (select flt e (pop s) sd) as [parents|]; [|discriminate].
     destruct (recombine e (pop s) parents rd o) as [o'|]; [|discriminate].
     eapply replace_inv; eauto.
   - destruct HI as (Hpl & Hsh & Hli & Hb). destruct (is_alps e) eqn:Ea.
-    + destruct (after_generation_alps flt e s a) as [p|] eqn:Eg; [|discriminate].
+    + destruct (after_generation_alps flt ops e s a) as [p|] eqn:Eg; [|discriminate].
       inversion E; subst. apply after_generation_alps_PL in Eg; auto.
       apply mk_inv_alps; simpl; auto. lia.
-    + destruct (ag_removed a); [|discriminate]. destruct (ag_small a); [|discriminate].
-      destruct (ag_kind_of a); try discriminate. inversion E; subst. unfold Inv; simpl.
+    + inversion E; subst. unfold Inv; simpl.
       split; [auto|]. split; [auto|]. split; [lia|auto].
   - destruct HI as (Hpl & Hsh & Hli & Hb). destruct (refit (pop s) fits) as [p|] eqn:Er; [|discriminate].
     inversion E; subst. apply refit_shape in Er. unfold Inv, PL. simpl. rewrite Er.
@@ -356,17 +355,17 @@ Proof.
   rewrite C. split; [split; [congruence|constructor; [simpl; lia|constructor]]|]. split; [auto|]. split; [lia|auto].
 Qed.
 
-Theorem run_inv : forall e evs s s', env_ok e -> Inv e s -> run flt e s evs = Some s' -> Inv e s'.
+Theorem run_inv : forall e evs s s', env_ok e -> Inv e s -> run flt ops e s evs = Some s' -> Inv e s'.
 Proof.
   intros e evs. induction evs as [|ev r IH]; intros s s' Hok HI E; simpl in E.
   - inversion E; subst; auto.
-  - destruct (step_ok flt e s ev) as [s1|] eqn:Es; [|discriminate].
+  - destruct (step_ok flt ops e s ev) as [s1|] eqn:Es; [|discriminate].
     apply (IH s1 s' Hok); [eapply step_inv; eauto | exact E].
 Qed.
 
 (* the statements asked for, each for every accepted trace of any length *)
 Definition reachable (e : env) (s : state) : Prop :=
-  exists xs s0 evs, init_state e xs = Some s0 /\ run flt e s0 evs = Some s.
+  exists xs s0 evs, init_state e xs = Some s0 /\ run flt ops e s0 evs = Some s.
 
 Lemma reachable_inv : forall e s, env_ok e -> reachable e s -> Inv e s.
 Proof.
@@ -441,7 +440,7 @@ Qed.
 
 Lemma try_add_sm : True. Proof. exact I. Qed.
 
-Lemma step_best_mono : forall e s ev s', no_shake [ev] = true -> step_ok flt e s ev = Some s' ->
+Lemma step_best_mono : forall e s ev s', no_shake [ev] = true -> step_ok flt ops e s ev = Some s' ->
   flt (best_fit (sm s')) (best_fit (sm s)) = false.
 Proof.
   intros e s ev s' Hn E. destruct ev as [sd rd o ds|a|bf fits]; simpl in *; try discriminate.
@@ -459,17 +458,16 @@ Proof.
     + destruct ds; [|discriminate]. unfold repl_tournament in E. destruct parents; [discriminate|].
       destruct (get (pop s) _); [|discriminate]. inversion E; subst. simpl. apply update_best_mono.
   - destruct (is_alps e).
-    + destruct (after_generation_alps flt e s a); [|discriminate]. inversion E; subst. simpl. apply flt_irrefl.
-    + destruct (ag_removed a); [|discriminate]. destruct (ag_small a); [|discriminate].
-      destruct (ag_kind_of a); try discriminate. inversion E; subst. simpl. apply flt_irrefl.
+    + destruct (after_generation_alps flt ops e s a); [|discriminate]. inversion E; subst. simpl. apply flt_irrefl.
+    + inversion E; subst. simpl. apply flt_irrefl.
 Qed.
 
-Theorem best_monotone : forall e evs s s', no_shake evs = true -> run flt e s evs = Some s' ->
+Theorem best_monotone : forall e evs s s', no_shake evs = true -> run flt ops e s evs = Some s' ->
   flt (best_fit (sm s')) (best_fit (sm s)) = false.
 Proof.
   intros e evs. induction evs as [|ev r IH]; intros s s' Hn E; simpl in E.
   - inversion E; subst. apply flt_irrefl.
-  - destruct (step_ok flt e s ev) as [s1|] eqn:Es; [|discriminate].
+  - destruct (step_ok flt ops e s ev) as [s1|] eqn:Es; [|discriminate].
     assert (Hn1 : no_shake [ev] = true) by (destruct ev; simpl in *; auto).
     assert (Hn2 : no_shake r = true) by (destruct ev; simpl in *; auto; discriminate).
     pose proof (step_best_mono e s ev s1 Hn1 Es) as H1.
@@ -485,6 +483,7 @@ End Proofs.
 Section Selection.
 Variable F : Type.
 Variable flt : F -> F -> bool.
+Variable ops : stat_ops.
 Hypothesis flt_asym : forall a b, flt a b = true -> flt b a = false.
 Hypothesis flt_negtrans : forall a b c, flt a b = false -> flt b c = false -> flt a c = false.
 
@@ -746,7 +745,7 @@ Proof.
 Qed.
 
 Lemma step_keeps_max : forall e (s s' : state) ev, is_alps e = false -> e_elitism e = true ->
-  no_shake F [ev] = true -> step_ok flt e s ev = Some s' -> keeps_max (pop s) (pop s').
+  no_shake F [ev] = true -> step_ok flt ops e s ev = Some s' -> keeps_max (pop s) (pop s').
 Proof.
   intros e s s' ev Ha He Hn E. destruct ev as [sd rd o ds|a|bf fits]; simpl in *; try discriminate.
   - destruct (select flt e (pop s) sd) as [parents|]; [|discriminate].
@@ -759,16 +758,15 @@ Proof.
     intros x Hx. destruct (set_ind_members (pop s) _ o' old x Eg Hx) as [->|Hin].
     + exists o'. split; [eapply set_ind_new; eauto | apply flt_asym; auto].
     + exists x. split; auto.
-  - rewrite Ha in E. destruct (ag_removed a); [|discriminate]. destruct (ag_small a); [|discriminate].
-    destruct (ag_kind_of a); try discriminate. inversion E; subst. apply keeps_max_refl.
+  - rewrite Ha in E. inversion E; subst. apply keeps_max_refl.
 Qed.
 
 Theorem elitism_keeps_max : forall e evs (s s' : state), is_alps e = false -> e_elitism e = true ->
-  no_shake F evs = true -> run flt e s evs = Some s' -> keeps_max (pop s) (pop s').
+  no_shake F evs = true -> run flt ops e s evs = Some s' -> keeps_max (pop s) (pop s').
 Proof.
   intros e evs. induction evs as [|ev r IH]; intros s s' Ha He Hn E; simpl in E.
   - inversion E; subst. apply keeps_max_refl.
-  - destruct (step_ok flt e s ev) as [s1|] eqn:Es; [|discriminate].
+  - destruct (step_ok flt ops e s ev) as [s1|] eqn:Es; [|discriminate].
     assert (Hn1 : no_shake F [ev] = true) by (destruct ev; simpl in *; auto).
     assert (Hn2 : no_shake F r = true) by (destruct ev; simpl in *; auto; discriminate).
     eapply keeps_max_trans; [eapply step_keeps_max; eauto | eapply IH; eauto].
